@@ -8,7 +8,7 @@ from xml.sax.saxutils import escape
 from lib.c15 import net as N
 from lib.c15.dbc import Lex  # noqa: F401
 
-NET_OPTS = {"multiline": False, "lengths": [1, 2, 4, 8, 8, 8], "attributes": False, "mux": True, "arxml": True}
+NET_OPTS = {"lengths": [1, 2, 4, 8, 8, 8], "attributes": False, "mux": True, "arxml": True}
 SKIP = ("attrs", "group", "txset")
 ROOT = "Net"
 
